@@ -139,8 +139,10 @@ func (p *c10) buildCfg(c c10cfg) *Program {
 	case 0:
 		body = append(append(pre, tx("H(")), append(site, tx(")"))...)
 	case 1:
-		loop := &gen.NFor{Val: "y", Seq: &gen.EArr{Els: []gen.Expr{str("l1"), str("l2")}}, Body: site}
-		body = append(append(pre, tx("H(")), loop, tx(")"))
+		// the loop variable shadows the host's y, in the second iteration with null; directly after the loop the
+		// construct is used once more, where the host's own y is visible again
+		loop := &gen.NFor{Val: "y", Seq: &gen.EArr{Els: []gen.Expr{str("l1"), &gen.ENull{}}}, Body: site}
+		body = append(append(pre, tx("H(")), loop, c10construct(c, "tgt", c.over, "3"), tx(")"))
 		body = append(body, c10probe("afterloop")...)
 	case 2:
 		// the host extends hbase, which has blocks named like the target's
@@ -254,7 +256,7 @@ func (p *c10) Run(i int) (res fw.Result) {
 }
 
 func (p *c10) Rule() string {
-	return "exhaustive product {include, embed} x {plain, with {w}, only, with+only, with overriding a host variable, with an existing hash variable + only, with an existing hash variable} x call site {top level, loop body whose loop variable collides with a host variable, block of an extending host whose ancestor has blocks named like the target's, macro body, if body, block of a non-extending host that shares both block names} x target {plain, assigns colliding names x and w, assigns a fresh name, extends a base, extends a base and assigns inside a block} x embed override subset (4 subsets of {ba, bb}; bb's override calls parent()) x {once, twice in a row with the complementary override subset}; random: a second (and third) include/embed nested inside the target's block or an override. Host and target print which of x, y, w, z they see (probe function) at the start, after assignments, inside every block and override, and after the construct. Oracle: reference model (copy of the visible variables overlaid by the with-hash, or the with-hash alone under only; assignments never flow back; embed = exactly the overrides of its body in front of the target's own chain). Non-trivial = a name or block-name collision exists; enumerated coordinates are distinct by construction."
+	return "exhaustive product {include, embed} x {plain, with {w}, only, with+only, with overriding a host variable, with an existing hash variable + only, with an existing hash variable} x call site {top level, loop body whose loop variable collides with a host variable (once with a string, once with null; the construct is used again directly after the loop), block of an extending host whose ancestor has blocks named like the target's, macro body, if body, block of a non-extending host that shares both block names} x target {plain, assigns colliding names x and w, assigns a fresh name, extends a base, extends a base and assigns inside a block} x embed override subset (4 subsets of {ba, bb}; bb's override calls parent()) x {once, twice in a row with the complementary override subset}; random: a second (and third) include/embed nested inside the target's block or an override. Host and target print which of x, y, w, z they see (probe function) at the start, after assignments, inside every block and override, and after the construct. Oracle: reference model (copy of the visible variables overlaid by the with-hash, or the with-hash alone under only; assignments never flow back; embed = exactly the overrides of its body in front of the target's own chain). Non-trivial = a name or block-name collision exists; enumerated coordinates are distinct by construction."
 }
 
 func (p *c10) Assumptions() []string {
